@@ -35,6 +35,9 @@ CHECKS = {
  "C07": (MC, "TLA+ ExcMachine (depth/active/obj driven by the five runtime entry points as the macros compose them) checked exhaustively by TLC against the block-structured reference for all lazily executed programs; every model transition rebuilt into a program tree and run with the real macros (interpreter with dynamic nesting, generated C with lexical nesting, forked children); recorded control flow validated by TLC (ExcTrace)",
          "TLC explores every dynamic path of every try/throw/catch program with 2-3 exception kinds, every filter set (the empty one included), nesting <= 3 and 9-10 statements, and checks that the machine enters exactly the handlers block structure prescribes, binds the thrown object, restores the depth and reports unhandled exceptions; the as-found exception_catch is refuted. All transitions of the model graph become program trees that run with the real macros, together with random trees up to 120 statements deep 6 (calls, throws from handlers, sequences), and TLC validates each recorded run including exit status and diagnostic of uncaught exceptions.",
          "three builtin exception objects stand for 'several kinds'; programs stay below the runtime's 2048-block nesting limit", "5/C07"),
+ "C08": (MC, "TLA+ Dispatch model (lazy per-type cache slots, memoised class pointers, lookups split into read/scan/write steps, two threads interleaved) checked exhaustively by TLC against Lookup = first declared entry of that class name; full type x class x member matrix, run-time types and concurrent first lookups on the real library in fresh processes; every answer validated by TLC (DispatchTrace) against an independent by-name scan of the raw type record",
+         "TLC checks for all lookup orders from two threads at sub-step granularity, on types with duplicated, missing and no classes, that every answer and every cached or memoised value equals the declaration (a seeded wrong memo write is refuted); on the real library all 27 x 30 x members combinations go through all eight lookup entry points cold and warm in random orders, run-time types with 0..256 instances in arbitrary order (duplicates, empty members, 257th refused), casts, and 2-16 threads doing first lookups against cold caches, and TLC checks each answer, ClassError for missing classes and empty members, and ValueError for foreign casts.",
+         "the oracle reads the public struct Type layout from Cello.h; real schedules are sampled (the model's interleavings are exhaustive)", "5/C08"),
 }
 
 NOT_YET = {
